@@ -15,6 +15,12 @@
 //!   `Deserializer::from_str / from_slice / from_reader` + `String` (`S`), `&str` (`R`: succeeds iff borrowed),
 //!   `ByteBuf` (`B`), `IgnoredAny` (`I`) `::deserialize` (no `end()`): `OK:<bytes>`, `OK` (I), `NB` (`&str` target,
 //!   not borrowed: `invalid type … expected a borrowed string`), `E:<msg>:<cat>:<line>:<col>`.
+//! * `rsa <cfg> <ctx> <doc> <p> => <str>|<slice>|<reader>` — the SELF-DESCRIBING route: the literal whose body starts at `doc[p]` is
+//!   requested with `deserialize_any` by a custom `Visitor` that tells `visit_borrowed_str` (`B<off>`: the pointer lies inside the
+//!   input at offset `off`) from `visit_str` (`C`) and `visit_string` (`S`): `OK:<bytes>:<B<off>|C|S>`. `ctx`: `T` top-level value,
+//!   `A` array element, `K` map key, `V` map value (custom container visitors), `U` / `UA` the derived
+//!   `#[serde(untagged)] enum Untagged<'a> { Num(u64), Text(&'a str) }` at top level / as `Vec<Untagged>` (serde buffers into
+//!   `Content` through `deserialize_any`; `Text` exists only if the string arrived borrowed): `OK:<bytes>:B<off>` or the error.
 use crate::common::*;
 use crate::obs::*;
 use crate::gen::chunk_sizes;
@@ -99,6 +105,130 @@ fn obs_rs(target: &str, input: &[u8], sizes: Vec<usize>) -> String {
     format!("{}|{}|{}", s, b, r)
 }
 
+// ---------------------------------------------------------------- the self-describing route (`deserialize_any`)
+
+/// what a visitor was handed
+enum Seen { Borrowed(usize, Vec<u8>), Transient(Vec<u8>), Owned(Vec<u8>), Other }
+struct Probe(Seen);
+struct ProbeVisitor;
+impl<'de> serde::de::Visitor<'de> for ProbeVisitor {
+    type Value = Seen;
+    fn expecting(&self, f: &mut std::fmt::Formatter) -> std::fmt::Result { f.write_str("anything") }
+    fn visit_borrowed_str<E: serde::de::Error>(self, v: &'de str) -> Result<Seen, E> { Ok(Seen::Borrowed(v.as_ptr() as usize, v.as_bytes().to_vec())) }
+    fn visit_str<E: serde::de::Error>(self, v: &str) -> Result<Seen, E> { Ok(Seen::Transient(v.as_bytes().to_vec())) }
+    fn visit_string<E: serde::de::Error>(self, v: String) -> Result<Seen, E> { Ok(Seen::Owned(v.into_bytes())) }
+    fn visit_unit<E: serde::de::Error>(self) -> Result<Seen, E> { Ok(Seen::Other) }
+    fn visit_bool<E: serde::de::Error>(self, _: bool) -> Result<Seen, E> { Ok(Seen::Other) }
+    fn visit_u64<E: serde::de::Error>(self, _: u64) -> Result<Seen, E> { Ok(Seen::Other) }
+    fn visit_i64<E: serde::de::Error>(self, _: i64) -> Result<Seen, E> { Ok(Seen::Other) }
+    fn visit_f64<E: serde::de::Error>(self, _: f64) -> Result<Seen, E> { Ok(Seen::Other) }
+}
+impl<'de> Deserialize<'de> for Probe {
+    fn deserialize<D: serde::Deserializer<'de>>(d: D) -> Result<Self, D::Error> { d.deserialize_any(ProbeVisitor).map(Probe) }
+}
+fn first_string(a: Seen, b: Seen) -> Seen { if matches!(a, Seen::Other) { b } else { a } }
+/// `[…]`: every element through `Probe`; the first string seen
+struct ProbeSeq(Seen);
+impl<'de> Deserialize<'de> for ProbeSeq {
+    fn deserialize<D: serde::Deserializer<'de>>(d: D) -> Result<Self, D::Error> {
+        struct V;
+        impl<'de> serde::de::Visitor<'de> for V {
+            type Value = Seen;
+            fn expecting(&self, f: &mut std::fmt::Formatter) -> std::fmt::Result { f.write_str("an array") }
+            fn visit_seq<A: serde::de::SeqAccess<'de>>(self, mut a: A) -> Result<Seen, A::Error> {
+                let mut r = Seen::Other;
+                while let Some(Probe(x)) = a.next_element::<Probe>()? { r = first_string(r, x); }
+                Ok(r)
+            }
+        }
+        d.deserialize_any(V).map(ProbeSeq)
+    }
+}
+/// `{…}`: every key (`KEYS = true`) or every value through `Probe`; the first string seen
+struct ProbeMap<const KEYS: bool>(Seen);
+impl<'de, const KEYS: bool> Deserialize<'de> for ProbeMap<KEYS> {
+    fn deserialize<D: serde::Deserializer<'de>>(d: D) -> Result<Self, D::Error> {
+        struct V<const KEYS: bool>;
+        impl<'de, const KEYS: bool> serde::de::Visitor<'de> for V<KEYS> {
+            type Value = Seen;
+            fn expecting(&self, f: &mut std::fmt::Formatter) -> std::fmt::Result { f.write_str("an object") }
+            fn visit_map<A: serde::de::MapAccess<'de>>(self, mut a: A) -> Result<Seen, A::Error> {
+                let mut r = Seen::Other;
+                if KEYS { while let Some(Probe(x)) = a.next_key::<Probe>()? { let _ = a.next_value::<serde::de::IgnoredAny>()?; r = first_string(r, x); } }
+                else { while let Some(_) = a.next_key::<serde::de::IgnoredAny>()? { let Probe(x) = a.next_value::<Probe>()?; r = first_string(r, x); } }
+                Ok(r)
+            }
+        }
+        d.deserialize_any(V::<KEYS>).map(ProbeMap)
+    }
+}
+#[derive(Deserialize, Debug, PartialEq)]
+#[serde(untagged)]
+enum Untagged<'a> { Num(u64), Text(&'a str) }
+
+fn show_seen(x: Seen, input: &[u8]) -> String {
+    match x {
+        Seen::Borrowed(p, b) => format!("OK:{}:{}", hexf(&b), refclass(p as *const u8, input)),
+        Seen::Transient(b) => format!("OK:{}:C", hexf(&b)),
+        Seen::Owned(b) => format!("OK:{}:S", hexf(&b)),
+        Seen::Other => "OK:other".into(),
+    }
+}
+fn show_untagged(xs: &[Untagged], input: &[u8]) -> String {
+    // the first `Text` member (it is a `&'de str`: borrowed by type)
+    for x in xs { if let Untagged::Text(s) = x { return format!("OK:{}:{}", hexf(s.as_bytes()), refclass(s.as_ptr(), input)); } }
+    "OK:other".into()
+}
+
+fn obs_rsa(ctx: &str, input: &[u8], sizes: Vec<usize>) -> String {
+    macro_rules! go { ($de:expr) => {{
+        let mut de = $de;
+        let r: Result<String, serde_json::Error> = match ctx {
+            "T" => Probe::deserialize(&mut de).map(|x| show_seen(x.0, input)),
+            "A" => ProbeSeq::deserialize(&mut de).map(|x| show_seen(x.0, input)),
+            "K" => ProbeMap::<true>::deserialize(&mut de).map(|x| show_seen(x.0, input)),
+            "V" => ProbeMap::<false>::deserialize(&mut de).map(|x| show_seen(x.0, input)),
+            "U" => Untagged::deserialize(&mut de).map(|x| show_untagged(&[x], input)),
+            _ => Vec::<Untagged>::deserialize(&mut de).map(|x| show_untagged(&x, input)),
+        };
+        match r { Ok(s) => s, Err(e) => show_err(&e) }
+    }}}
+    let g = |x: Result<String, Box<dyn std::any::Any + Send>>| x.unwrap_or_else(|_| "PANIC".to_string());
+    let s = match std::str::from_utf8(input) {
+        Ok(t) => g(catch_unwind(AssertUnwindSafe(|| go!(serde_json::Deserializer::from_str(t))))),
+        Err(_) => "-".to_string(),
+    };
+    let b = g(catch_unwind(AssertUnwindSafe(|| go!(serde_json::Deserializer::from_slice(input)))));
+    let r = g(catch_unwind(AssertUnwindSafe(|| go!(serde_json::Deserializer::from_reader(Chunked::new(input, sizes))))));
+    format!("{}|{}|{}", s, b, r)
+}
+
+fn emit_rsa(sink: &mut Sink, r: &mut Rng, cfg: &str, ctx: &str, doc: &[u8], p: usize, tag: &str) {
+    let o = obs_rsa(ctx, doc, chunk_sizes(r));
+    let m = o.split('|').nth(1).unwrap_or("");
+    let cls = if m.starts_with("OK") { if m.contains(":B") { "borrowed" } else if m.ends_with(":C") { "copied" } else if m.ends_with(":S") { "owned" } else { "other" } }
+              else if m == "PANIC" { "panic" } else { "err" };
+    sink.case("rsa", &[cfg, ctx, &hexf(doc), &p.to_string()], &o, &format!("rsa-{}:{}:{}", ctx, tag, cls), true);
+}
+
+/// the literal `lit` (starts with `"`) through the self-describing route: alone (`T`, `U`: any input), and — when it is one complete
+/// well-formed literal — as an array element, map key and map value, tightly and with whitespace / neighbours around it
+fn lit_any(sink: &mut Sink, r: &mut Rng, cfg: &str, lit: &[u8], tag: &str) {
+    emit_rsa(sink, r, cfg, "T", lit, 1, tag);
+    emit_rsa(sink, r, cfg, "U", lit, 1, tag);
+    if serde_json::from_slice::<String>(lit).is_err() { return; }
+    let wrap = |pre: &[u8], post: &[u8]| -> (Vec<u8>, usize) { ([pre, lit, post].concat(), pre.len() + 1) };
+    let loose = r.chance(1, 3);
+    let (d, p) = if loose { wrap(b" [ null , ", b" , 2 ] ") } else { wrap(b"[", b"]") };
+    emit_rsa(sink, r, cfg, "A", &d, p, tag);
+    let (d, p) = if loose { wrap(b"{ ", b" : 0 , \"z\\n\":[] }") } else { wrap(b"{", b":0}") };
+    emit_rsa(sink, r, cfg, "K", &d, p, tag);
+    let (d, p) = if loose { wrap(b"{\"a\\u0062\" : 1, \"k\" : ", b" }") } else { wrap(b"{\"k\":", b"}") };
+    emit_rsa(sink, r, cfg, "V", &d, p, tag);
+    let (d, p) = if loose { wrap(b" [ ", b" , 7 ]") } else { wrap(b"[7,", b"]") };
+    emit_rsa(sink, r, cfg, "UA", &d, p, tag);
+}
+
 fn class(o: &str) -> String {
     let m = o.split('|').nth(1).unwrap_or("");
     if m.starts_with("OK") { if m.contains(":B") { "ok-borrowed".into() } else { "ok".into() } }
@@ -129,6 +259,7 @@ fn emit_rs(sink: &mut Sink, r: &mut Rng, cfg: &str, target: &str, input: &[u8], 
 fn lit(sink: &mut Sink, r: &mut Rng, cfg: &str, input: &[u8], start: usize, tag: &str, e2e: bool) {
     for f in ["S", "R", "I"] { emit_rd(sink, r, f, input, start, tag); }
     if e2e { for t in ["S", "R", "B", "I"] { emit_rs(sink, r, cfg, t, input, tag); } }
+    if e2e && start == 1 { lit_any(sink, r, cfg, input, tag); }
 }
 
 fn quoted(body: &[u8]) -> Vec<u8> { let mut v = vec![b'"']; v.extend_from_slice(body); v.push(b'"'); v }
@@ -144,6 +275,11 @@ pub fn replay(sink: &mut Sink, toks: &[&str]) {
             let inp = unhex(toks[3]);
             let o = obs_rs(toks[2], &inp, vec![1]);
             sink.case("rs", &[&cfg_tag(), toks[2], toks[3]], &o, "replay", true);
+        }
+        "rsa" if toks.len() >= 5 => {
+            let inp = unhex(toks[3]);
+            let o = obs_rsa(toks[2], &inp, vec![1]);
+            sink.case("rsa", &[&cfg_tag(), toks[2], toks[3], toks[4]], &o, "replay", true);
         }
         _ => eprintln!("cannot replay {:?}", toks),
     }
